@@ -335,6 +335,12 @@ func (P *Program) ContractFor(fn *ssa.Function) *Contract {
 			return c
 		}
 	}
+	// extern contracts stated by the contract file of another package (a caller's view of this function)
+	for _, f := range P.Contracts {
+		if c := f.Externs[pk+"::"+k]; c != nil {
+			return c
+		}
+	}
 	return nil
 }
 
